@@ -354,6 +354,12 @@ class ConcreteState(object):
     def comm(self, strat, q, p):
         return float(strat.commission_fn(q, p))
 
+    def dataval(self, data, node):
+        try:
+            return float(data[node.name])
+        except Exception:
+            return float("nan")
+
     def idx(self, node, date):
         try:
             return node.data.index.get_loc(date)
